@@ -173,6 +173,12 @@ func VerifC10_ListenFails() {
 // C09: a Listen that fails leaves no goroutine behind
 func VerifC09_ListenFailureReleasesGoroutines() { VerifC10_ListenFails() }
 
+func VerifC10_T_ListenLazy3() {
+	c10Lazy = true
+	defer func() { c10Lazy = false }()
+	c10Listen(3)
+}
+
 // C02: an event delivered by the listener is a reply like any other - every field of the delivered status is
 // the protocol decoding of the datagram (0x17 and v6.62 0x19 alike), out-of-domain fields make it an error
 func VerifC02_ListenEvent() { c10Listen(1) }
